@@ -6,6 +6,7 @@ patch="$1"; shift
 rev=""
 if [ "${1:-}" = "-R" ]; then rev="-R"; shift; fi
 [ "${1:-}" = "--" ] && shift
+exec 9>/var/lock/imdl-verif-repo.lock; flock -x 9; export VERIF_REPO_LOCK_HELD=1
 if [ -n "$(git -C /repo status --porcelain --untracked-files=no)" ]; then echo "/repo is not clean"; exit 2; fi
 git -C /repo apply -C1 --recount $rev "$patch" || { echo "patch does not apply"; exit 2; }
 for c in "$@"; do
